@@ -5,6 +5,8 @@ use crate::util::*;
 use rs_opw_kinematics::kinematic_traits::{Joints, Kinematics};
 use rs_opw_kinematics::kinematics_impl::verif_hooks as H;
 use std::f64::consts::PI;
+use crate::c09::{build, random_iso, W};
+use std::sync::Arc;
 
 pub fn main(tier: &str, seed: u64, n_override: Option<u64>) {
     let n = n_override.unwrap_or(if tier == "thorough" { 200_000 } else { 8_000 });
@@ -34,6 +36,45 @@ pub fn main(tier: &str, seed: u64, n_override: Option<u64>) {
         if nonsingular(&r, &j) && decided == Some(true) {
             let found = sols.iter().any(|s| (0..5).all(|i| ang_diff(s[i], j[i]) < 1e-6));
             if !found && direct == "ok" { direct = "fail".into(); class = if sols.is_empty() && r.p.dof == 5 && entry < 2 { format!("C06.dof5_robot_returns_nothing_entry{}", entry) } else { format!("C06.origin_missing_entry{}", entry) }; }
+        }
+        // the same behind axial tools / bases: tool point and axis of the STACK, J6 still the caller's value
+        if idx % 4 == 3 && direct == "ok" {
+            let depth = 1 + rng.below(2) as usize;
+            let ws: Vec<W> = (0..depth).map(|_| if rng.bool() { W::Tool(random_iso(&mut rng, true)) } else { W::Base(random_iso(&mut rng, false)) }).collect();
+            let inner: Arc<dyn rs_opw_kinematics::kinematic_traits::Kinematics> = Arc::new(r.solver());
+            let stack = build(inner, &ws);
+            let wpose = stack.forward(&j);
+            let wsols = match entry { 0 => stack.inverse(&wpose), 1 => stack.inverse_continuing(&wpose, &prev), 2 => stack.inverse_5dof(&wpose, j6), _ => stack.inverse_continuing_5dof(&wpose, &prev) };
+            let lever: f64 = 1.0 + ws.iter().map(|w| match w { W::Tool(t) | W::Frame(t) => t.translation.vector.norm(), W::Base(_) => 0.0 }).sum::<f64>();
+            for s in &wsols {
+                if s[5].to_bits() != want6.to_bits() && !(s[5] == 0.0 && want6 == 0.0) && direct == "ok" { direct = "fail".into(); class = format!("C06.j6_not_callers_value_through_wrappers_entry{}", entry); }
+                let back = stack.forward(s);
+                let d = (back.translation.vector - wpose.translation.vector).norm();
+                let (za, zb) = (back.rotation * nalgebra::Vector3::z(), wpose.rotation * nalgebra::Vector3::z());
+                if (d > 2e-5 * lever || za.cross(&zb).norm() > 2e-5) && direct == "ok" { direct = "fail".into(); class = format!("C06.point_or_axis_wrong_through_wrappers_entry{}", entry); }
+            }
+        }
+        // a robot declared 5-DOF in a parameter file (dof at the top level, as to_yaml prints it, or inside the geometric block)
+        if idx % 10 == 4 && r.p.dof == 5 && direct == "ok" {
+            use rs_opw_kinematics::kinematic_traits::Kinematics as _;
+            let mut text = r.p.to_yaml();
+            if rng.bool() { text = text.replace("\ndof: 5", "").replace("opw_kinematics_geometric_parameters:\n", "opw_kinematics_geometric_parameters:\n  dof: 5\n"); }
+            let path = format!("{}/vh_c06_{}_{}.yaml", std::env::temp_dir().display(), std::process::id(), idx);
+            std::fs::write(&path, &text).unwrap();
+            let loaded = rs_opw_kinematics::parameters::opw_kinematics::Parameters::from_yaml_file(&path);
+            let _ = std::fs::remove_file(&path);
+            match loaded {
+                Err(_) => { direct = "fail".into(); class = "C06.five_dof_parameter_file_rejected".into(); }
+                Ok(q) => {
+                    if q.dof != 5 { direct = "fail".into(); class = "C06.declared_5dof_read_as_6dof".into(); }
+                    else {
+                        let kq = rs_opw_kinematics::kinematics_impl::OPWKinematics::new(q);
+                        let sols = kq.inverse(&pose);
+                        if nonsingular(&r, &j) && sols.is_empty() { direct = "fail".into(); class = "C06.dof5_robot_from_file_returns_nothing".into(); }
+                        if sols.iter().any(|s| s[5] != 0.0) && direct == "ok" { direct = "fail".into(); class = "C06.dof5_robot_from_file_j6_not_zero".into(); }
+                    }
+                }
+            }
         }
         // the 5-DOF kernel on this pose: traced branch table, position verdict of every finite branch (formed here), kernel output
         let bare = r.bare();
